@@ -7,6 +7,8 @@ not "produced by the library".
 Direct oracle (O) on the real classes: decode at an offset into a fresh object (ANYVALUE, a Dynamic whose type list holds the
 type, or the typed structure) gives exactly the reference's value and the position after the item; `encode()` of the decoded
 object is the canonical encoding (`codec spec`, Lean `Spec.E5.encode`).
+Also: two or three messages of the same stream/function decoded through ONE `StreamsFunctions` container (a full body, then a legal
+shorter / empty list, and the reverse) — each result equals a fresh container's, earlier results stay as they were.
 Correspondence (C): `decode` of the same bytes, and of invalid / out-of-quantifier ones (NaN, infinity, JIS-8 under a Dynamic,
 zero length bytes, truncation), against `Model.Var.decodeAs`.
 """
@@ -70,7 +72,57 @@ def oracle_decode(res, s, v, data: bytes, start: int, tail: bytes, ref_val=None,
                     dict(case, held=js(held)), want_s[:200], got2[:200])
 
 
+def shorter_bodies(st, v):
+    """valid bodies whose top-level list announces fewer members than v has (prefixes, down to the empty list)"""
+    t, xs = v
+    if t != "L" or st[0] not in ("rec", "arr"):
+        return []
+    out = []
+    for n in sorted({0, 1, len(xs) - 1} & set(range(len(xs)))):
+        out.append(("L", xs[:n]))
+    return out
+
+
+def oracle_decode_sequence(res, cls_name, bodies):
+    """several messages of ONE stream/function decoded through ONE StreamsFunctions container: every result equals what a fresh
+    container gives for that body, earlier results are not changed by later decodes, and results are distinct objects"""
+    import c03_fn
+    from secsgem.secs.functions import StreamsFunctions
+    from secsgem.secs.functions._all import secs_streams_functions
+    cls = next(c for c in secs_streams_functions if c.__name__ == cls_name)
+    case = {"kind": "sequence", "fn": cls_name, "bodies": [b.hex() for b in bodies]}
+
+    def show(fn):
+        return type(fn).__name__ + " " + ("header-only" if fn.data is None else K.show_obj(fn.data))
+    fresh = []
+    for b in bodies:
+        try:
+            fresh.append("ok " + show(StreamsFunctions().decode(c03_fn.message(cls.stream, cls.function, b))))
+        except Exception as exc:  # noqa: BLE001
+            fresh.append("err " + hlib.errkind(exc))
+    one = StreamsFunctions()
+    results = []
+    for k, b in enumerate(bodies):
+        try:
+            fn = one.decode(c03_fn.message(cls.stream, cls.function, b))
+            got = "ok " + show(fn)
+        except Exception as exc:  # noqa: BLE001
+            fn, got = None, "err " + hlib.errkind(exc)
+        if got != fresh[k]:
+            res.violate("decode-sequence-stale", f"S{cls.stream}F{cls.function}: message #{k + 1} decoded through a container that decoded this function before "
+                        "differs from its decode through a fresh container", case, fresh[k][:200], got[:200])
+            return
+        for j, (old, old_show) in enumerate(results):
+            if old is not None and (old is fn or "ok " + show(old) != old_show):
+                res.violate("decode-sequence-stale", f"S{cls.stream}F{cls.function}: the object returned for message #{j + 1} was changed by decoding message #{k + 1}",
+                            case, old_show[:200], ("same object" if old is fn else "ok " + show(old))[:200])
+                return
+        results.append((fn, got))
+
+
 def replay_case(res, case):
+    if case.get("kind") == "sequence":
+        oracle_decode_sequence(res, case["fn"], [bytes.fromhex(b) for b in case["bodies"]])
     if case.get("kind") == "decode":
         oracle_decode(res, unjs(case["struct"]), unjs(case["val"]), bytes.fromhex(case["data"]), case["start"], b"\0" * case["tail"])
 
@@ -254,6 +306,28 @@ def main():
             if not ok:
                 res.violate("decode-wrong-value", f"{t} with 16777215 bytes does not decode / re-encode", {"kind": "big", "type": t, "n": n})
             res.count(("big", t, n), sample={"op": "decode long", "type": t, "bytes": n})
+
+    # ------------------------------------------------------------------ two messages of one function through one container
+    import c03_fn
+    from secsgem.secs.functions._all import secs_streams_functions
+    n_seq = 0
+    for cls in secs_streams_functions:
+        obj = cls()
+        if obj.data is None:
+            continue
+        st = c03_fn.struct_of_obj(obj.data)
+        for _ in range(2 if big else 1):
+            v = c03_fn.gen_for(rng, st)
+            if v[0] == "L" and not v[1] and st[0] == "arr":
+                v = ("L", [c03_fn.gen_for(rng, st[1], 1) for _ in range(2)])
+            full = K.own_encode(v, rng, noncanon=30)
+            for w in shorter_bodies(st, v) or [c03_fn.gen_for(rng, st)]:
+                short = K.own_encode(w)
+                oracle_decode_sequence(res, cls.__name__, [full, short])
+                oracle_decode_sequence(res, cls.__name__, [short, full, short])
+                n_seq += 2
+                res.count(("sequence", cls.__name__, full, short))
+    res.bump("decode_sequences", "through one StreamsFunctions", n_seq)
 
     # ------------------------------------------------------------------ outside the quantifier: correspondence only
     cases, lines, answers = [], [], []
